@@ -37,6 +37,11 @@ Section Obj.
   Definition obj_valid (pk : bytes) (o : sobj) : bool :=
     match o_sig o with Some sg => verify pk (obj_digest o) sg | None => false end.
 
+  (* Output.is_signed_by(channel) since /repo fb0a075: the channel passed in must be the one the object names
+     (claim hash ch), and the signature must verify under that channel's public key pk *)
+  Definition obj_valid_channel (pk ch : bytes) (o : sobj) : bool :=
+    bytes_eqb (o_ch o) ch && obj_valid pk o.
+
   Definition ostep (o : sobj) (op : oop) : sobj :=
     match op with
     | OSign sk ch => mk_sobj None (Some (sign sk (sha256 (channel_pieces fo ch (o_msg o))))) ch (o_msg o)
